@@ -192,7 +192,9 @@ func Solve(vc *VC, opts SolveOpts) error {
 				}
 				if err == nil && o.Status != want && !(o.Cover && o.Status == "unknown") && !opts.NoEscalate {
 					// escalate: all solvers, longer timeout, models
-					err = solveOne(vc, o, fb+".x", Solvers, opts.TimeoutMs*3, need2, true)
+					// generous: the limit only costs time on obligations that are not discharged, and a
+					// tight one makes the verdict depend on the machine's load
+					err = solveOne(vc, o, fb+".x", Solvers, opts.TimeoutMs*12, need2, true)
 				}
 				// (thorough tier) the first round already ran both solvers to completion or to
 				// the first timeout: an answer both gave is recorded as "a+b"; one that only one
